@@ -56,7 +56,7 @@ Ambiguous(ctx, e) == ctx \in HeaderCtx /\ Exposed(e)
 (* ---- grammar: base, chain of steps, final ---- *)
 \* class of the value an expression denotes: N (struct N), PN (*N), Pt (image.Point), A (anonymous struct)
 Bases == {<<"N", Lit("N")>>, <<"PN", Addr(Lit("N"))>>, <<"N", Var("vn")>>, <<"N", Index(SliceLit, IntL(0))>>, <<"N", Index(MapLit, StrL)>>,
-          <<"N", FuncCall>>, <<"Pt", Lit("Pt")>>, <<"A", AnonLit>>}
+          <<"N", FuncCall>>, <<"Pt", Lit("Pt")>>, <<"A", AnonLit>>, <<"G", Lit("G")>>}       \* G: an instantiated generic type G[int]{v: 1} (an index expression as literal type)
 \* steps keep or change the class
 Steps(c) == CASE c \in {"N", "PN"} -> {<<"N", "M">>, <<"PN", "p">>}
               [] c = "Pt" -> {<<"Pt", "Add">>}
@@ -72,6 +72,7 @@ Finals(c) == CASE c \in {"N", "PN"} -> {<<"bool", "ok">>, <<"bool", "eqL">>, <<"
                                         \cup (IF c = "N" THEN {<<"bool", "callarg">>, <<"int", "callint">>} ELSE {})
                [] c = "Pt" -> {<<"bool", "Eq">>, <<"bool", "XeqL">>, <<"int", "X">>}
                [] c = "A" -> {<<"bool", "ok">>, <<"bool", "eqL">>, <<"bool", "eqR">>, <<"int", "v">>}
+               [] c = "G" -> {<<"bool", "ok">>, <<"bool", "eqL">>, <<"bool", "eqR">>, <<"bool", "not">>, <<"bool", "andR">>, <<"int", "v">>, <<"int", "plus">>}
 ApplyFinal(e, f) ==
   CASE f = "ok" -> Sel(e, "ok")
     [] f = "eqL" -> Bin("==", Sel(e, "v"), IntL(1))
